@@ -278,6 +278,11 @@ func c19E2E(env *fw.Env) {
 				add(c19Case{Scenario: "silent", Active: (thr+rep)%2 == 0, Threshold: thr, Suppress: sup})
 			}
 			add(c19Case{Scenario: "answering", Active: thr%2 == 1, Threshold: thr, Suppress: rep%2 == 0})
+			// life shown by a frame whose (inline) data handler is still running when the probe times out
+			add(c19Case{Scenario: "alive-slow-handler", Active: (thr+rep)%2 == 0, Threshold: thr, Suppress: true})
+			if thr == 1 { // one uncredited timeout is fatal here: both roles
+				add(c19Case{Scenario: "alive-slow-handler", Active: (thr+rep)%2 == 1, Threshold: thr, Suppress: true})
+			}
 			if thr >= 2 {
 				// a dead peer, but the LOCAL side writes a one-way message after every probe timeout: our own
 				// traffic may postpone the next probe, it is never proof of peer life
@@ -310,6 +315,9 @@ func c19One(env *fw.Env, cs c19Case) {
 	if cs.Scenario == "chatty" {
 		interval = 600 * time.Millisecond // the premise (every gap < interval/2) must survive a loaded machine
 	}
+	if cs.Scenario == "alive-slow-handler" {
+		interval, t6 = 200*time.Millisecond, 300*time.Millisecond
+	}
 	sup := cs.Suppress
 	rg, err := newRig(rigOpts{Active: cs.Active, T3: 8 * time.Second, T6: t6, Linktest: interval, LinktestFails: cs.Threshold, Suppress: &sup})
 	if err != nil {
@@ -338,6 +346,16 @@ func c19One(env *fw.Env, cs c19Case) {
 		}
 
 		return !f.IsData()
+	}
+	if cs.Scenario == "alive-slow-handler" {
+		// handlers run inline on the receive path: the frame that proves life has been RECEIVED when the probe
+		// times out even though the application is still busy with it
+		rg.Conn.AddDataMessageHandler(func(m *hsms.DataMessage, _ hsms.SECS2Endpoint) {
+			if m.Stream() == 1 && m.Function() == 1 {
+				env.Event("slow_handler_invocations", 1)
+				time.Sleep(t6 + t6/4)
+			}
+		})
 	}
 	// the T6 of the select procedure is the same short T6: an active library needs its answer quickly
 	if err := rg.Open(); err != nil {
@@ -431,6 +449,33 @@ func c19One(env *fw.Env, cs c19Case) {
 		if cm.LinktestRecvCount() != uint64(answers.Load()) || cm.LinktestErrCount() != 0 {
 			fail("linktest-counters-answering", fmt.Sprintf("ControlMetrics send=%d recv=%d err=%d; the peer answered %d of %d probes", cm.LinktestSendCount(), cm.LinktestRecvCount(), cm.LinktestErrCount(), answers.Load(), probes.Load()))
 		}
+	case "alive-slow-handler":
+		mode.Store(2)
+		waitFor(30*time.Second, func() bool { return probes.Load() >= int64(3*cs.Threshold+2) || pc.WaitClosed(time.Millisecond) })
+		if _, err := pc.Barrier(10 * time.Second); err != nil {
+			// premise: the peer's own turnaround (probe parsed -> data frame written) stayed well inside T6
+			sent := pc.SentLog()
+			for _, ev := range pc.Log() {
+				if ev.Frame.PType != 0 || ev.Frame.SType != peer.STLinktestReq {
+					continue
+				}
+				turn := time.Duration(-1)
+				for _, s := range sent {
+					if s.Frame.IsData() && s.At >= ev.At {
+						turn = s.At - ev.At
+						break
+					}
+				}
+				if turn < 0 || turn > t6/3 {
+					env.Note("scenario %d: the harness peer answered a probe after %v (T6 %v): premise not met", cs.Index, turn, t6)
+					env.Discard()
+					return
+				}
+			}
+			fail("alive-peer-dropped-slow-handler", fmt.Sprintf("suppression on, threshold %d: the peer sent a data frame right after every probe; the local handler for it takes %v (T6 %v), so the frame had arrived but was still being handled when the probe timed out; the link was dropped after %d probes: %v", cs.Threshold, t6+t6/4, t6, probes.Load(), err))
+			return
+		}
+		env.Event("alive_peer_kept_slow_handler", 1)
 	case "alive-not-answering":
 		mode.Store(2)
 		if cs.Suppress {
